@@ -4,7 +4,7 @@ import "verif/harness/core"
 
 // C10: clean and persistent sessions.
 func C10(c *core.Ctx) {
-	c.Rep.Bound = "HIST: connect(CleanSession 0/1) / subscribe / unsubscribe / disconnect / cut over two client ids and two connections plus a witness publisher, BFS de-duplicated on the model state, depth 6 (quick) / 8 (thorough); a second run with the server QoS cap at 1; every sequence without de-duplication to depth 8 (quick) / 10 (thorough) over a one-client alphabet (connect clean/persistent, subscribe, unsubscribe, disconnect, cut, probe)"
+	c.Rep.Bound = "HIST: connect(CleanSession 0/1) / subscribe / unsubscribe / disconnect / cut over two client ids and two connections plus a witness publisher, BFS de-duplicated on the model state, depth 6 (quick) / 8 (thorough); a second run with the server QoS cap at 1; every sequence without de-duplication to depth 8 (quick) / 10 (thorough) over a one-client alphabet (connect clean/persistent, subscribe, unsubscribe, disconnect, cut, probe); every sequence to depth 5 (quick) / 7 (thorough) over connections of one client id whose CONNECTs differ in user name, password, keep-alive or will"
 	c.Rep.Rule = "after every action the CONNACK (SessionPresent), SUBACK and the deliveries of probe publishes are compared with the session model; distinct = canonical model states (stored sessions with their filters and QoS, live connections)"
 	px := func(client, cid string, clean bool) Action {
 		return Action{Kind: "connect", Client: client, Opts: ConnectOpts{ClientID: cid, Clean: clean, KeepAlive: 600}}
@@ -57,6 +57,28 @@ func C10(c *core.Ctx) {
 	}
 	seq := &HistSpec{Name: "sessions-sequences", Ops: seqOps, Depth: sd, Dedup: false, Comps: comps, Prefix: []Action{px("W", "w", true)}}
 	seq.Search(c)
+	if c.HasViolation() || c.Expired() {
+		return
+	}
+	// the session is keyed by the client identifier ONLY: connections of one client id whose
+	// CONNECT packets differ in one other field each (user name, password, keep-alive, will)
+	// resume the same session
+	pf := func(clean bool, user, pass string, ka uint16, will *Will) Action {
+		return Action{Kind: "connect", Client: "X", Opts: ConnectOpts{ClientID: "a", Clean: clean, KeepAlive: ka, User: user, Pass: pass, Will: will}}
+	}
+	fieldOps := []Action{
+		pf(false, "", "", 600, nil), pf(false, "u1", "p1", 600, nil), pf(false, "u2", "p1", 600, nil), pf(false, "u1", "p2", 600, nil),
+		pf(false, "", "", 30, nil), pf(false, "", "", 600, &Will{Topic: "w/x", Payload: "gone", QoS: 1}), pf(true, "u1", "p1", 600, nil),
+		sub("X", 1, "t/1", 1),
+		{Kind: "disconnect", Client: "X"}, {Kind: "cut", Client: "X"},
+		pub("W", "t/1", 1, 41, "probe"),
+	}
+	fd := 5
+	if c.Thorough() {
+		fd = 7
+	}
+	fseq := &HistSpec{Name: "sessions-connect-fields", Ops: fieldOps, Depth: fd, Dedup: false, Comps: comps, Prefix: []Action{px("W", "w", true)}}
+	fseq.Search(c)
 	if c.HasViolation() || c.Expired() {
 		return
 	}
